@@ -101,4 +101,98 @@ def check(run, ctx):
     nl = repo.func(f"{PKG}.token_hasher.normalize_line")
     ok = any(is_call_named(n, "_strip_comments") for n in ast.walk(nl.node)) and any(is_call_named(n, "split") for n in ast.walk(nl.node)) and any(is_call_named(n, "join") for n in ast.walk(nl.node))
     (run.ok(D4, "normalize_line", "strips comments, collapses whitespace") if ok else run.finding(D4, "normalize_line", "normaliser", "normalize_line no longer strips comments and collapses whitespace", nl.loc))
+    # order: the whitespace collapse must be the outermost step, applied to the comment-stripped text
+    # (stripping a trailing comment after collapsing leaves the blank that separated code and comment)
+    rets = [n for n in ast.walk(nl.node) if isinstance(n, ast.Return) and n.value is not None and not (isinstance(n.value, ast.Name) or isinstance(n.value, ast.Constant))]
+    last = rets[-1].value if rets else None
+    collapse_outer = isinstance(last, ast.Call) and call_name(last) == "join" and last.args and isinstance(last.args[0], ast.Call) and call_name(last.args[0]) == "split"
+    strip_first = False
+    if collapse_outer:
+        inner = last.args[0].func.value
+        src_names = {x.id for x in ast.walk(inner) if isinstance(x, ast.Name)}
+        strip_first = is_call_named(inner, "_strip_comments") or any(isinstance(a, ast.Assign) and any(isinstance(t, ast.Name) and t.id in src_names for t in a.targets) and contains_call(a.value, "_strip_comments") for a in ast.walk(nl.node))
+    (run.ok(D4, "normalize_line order", "' '.join(<comment-stripped>.split()) - collapse applied last") if collapse_outer and strip_first else run.finding(D4, "normalize_line", "order", "whitespace is collapsed before comments are stripped (or the result is not re-collapsed): `x = f(y)  # note` and `x = f(y)` normalise to different strings, so a duplicated block with a trailing comment in one copy is missed", nl.loc))
+
+    D5 = run.rule("D5", "window arithmetic of the three rolling-hash implementations: for n normalised lines and window w exactly max(0, n - w + 1) windows of length w are produced", floor=3,
+                  decides="a run of exactly min_duplicate_lines lines (or a file that consists of nothing else) is still covered")
+    for fq in (f"{PKG}.token_hasher.rolling_hash", f"{PKG}.python_analyzer.PythonDuplicateAnalyzer._rolling_hash_with_tracking", f"{PKG}.typescript_analyzer.TypeScriptDuplicateAnalyzer._rolling_hash_with_tracking"):
+        f = repo.func(fq)
+        verdict = _window_count_ok(f)
+        sym = fq.replace("src.linters.", "")
+        if verdict is True:
+            run.ok(D5, sym, "guard and range give max(0, n-w+1) windows for n in w-1..w+5")
+        elif verdict is None:
+            run.undecided(D5, sym, "guard/loop shape not recognised")
+        else:
+            run.finding(D5, sym, f"window-count:{verdict}", f"{sym}: for (n lines, window w) = {verdict[0]} the code produces {verdict[1]} windows, expected {verdict[2]}: duplicated runs at the boundary are dropped (or phantom windows created)", f.loc)
     return __doc__
+
+
+def contains_call(node, name):
+    return any(is_call_named(x, name) for x in ast.walk(node))
+
+
+def _window_count_ok(f):
+    """Evaluate the guard `if <cond>: return []` and `for i in range(<expr>)` symbolically for small n, w."""
+    params = [a.arg for a in f.node.args.args if a.arg not in ("self", "cls")]
+    if len(params) < 2:
+        return None
+    L, W = params[0], params[1]
+    assigns = {}
+    for n in ast.walk(f.node):
+        if isinstance(n, ast.Assign) and len(n.targets) == 1 and isinstance(n.targets[0], ast.Name):
+            assigns.setdefault(n.targets[0].id, n.value)
+    guard = next((n for n in f.node.body if isinstance(n, ast.If) and any(isinstance(s, ast.Return) and isinstance(s.value, (ast.List, ast.Tuple)) and not s.value.elts for s in n.body)), None)
+    loop = next((n for n in ast.walk(f.node) if isinstance(n, ast.For) and isinstance(n.iter, ast.Call) and call_name(n.iter) == "range" and len(n.iter.args) == 1), None)
+    if loop is None:
+        return None
+    sl = next((n for n in ast.walk(loop) if isinstance(n, ast.Subscript) and isinstance(n.slice, ast.Slice) and isinstance(n.value, ast.Name) and n.value.id == L), None)
+
+    def ev(e, n_, w_, depth=0):
+        if depth > 6:
+            raise ValueError
+        if isinstance(e, ast.Constant) and isinstance(e.value, (int, bool)):
+            return e.value
+        if isinstance(e, ast.Name):
+            if e.id == W:
+                return w_
+            if e.id in assigns:
+                return ev(assigns[e.id], n_, w_, depth + 1)
+            raise ValueError
+        if isinstance(e, ast.Call) and call_name(e) == "len" and e.args and isinstance(e.args[0], ast.Name) and e.args[0].id == L:
+            return n_
+        if isinstance(e, ast.Call) and call_name(e) in ("max", "min"):
+            vals = [ev(a, n_, w_, depth + 1) for a in e.args]
+            return max(vals) if call_name(e) == "max" else min(vals)
+        if isinstance(e, ast.BinOp) and isinstance(e.op, (ast.Add, ast.Sub, ast.Mult)):
+            a, b = ev(e.left, n_, w_, depth + 1), ev(e.right, n_, w_, depth + 1)
+            return a + b if isinstance(e.op, ast.Add) else a - b if isinstance(e.op, ast.Sub) else a * b
+        if isinstance(e, ast.UnaryOp) and isinstance(e.op, ast.Not):
+            return not ev(e.operand, n_, w_, depth + 1)
+        if isinstance(e, ast.UnaryOp) and isinstance(e.op, ast.USub):
+            return -ev(e.operand, n_, w_, depth + 1)
+        if isinstance(e, ast.BoolOp):
+            vals = [ev(v, n_, w_, depth + 1) for v in e.values]
+            return all(vals) if isinstance(e.op, ast.And) else any(vals)
+        if isinstance(e, ast.Compare) and len(e.ops) == 1:
+            a, b = ev(e.left, n_, w_, depth + 1), ev(e.comparators[0], n_, w_, depth + 1)
+            op = e.ops[0]
+            return {ast.Lt: a < b, ast.LtE: a <= b, ast.Gt: a > b, ast.GtE: a >= b, ast.Eq: a == b, ast.NotEq: a != b}[type(op)]
+        raise ValueError
+
+    try:
+        for w_ in (3, 5):
+            for n_ in (w_ - 1, w_, w_ + 1, w_ + 5, 0):
+                g = ev(guard.test, n_, w_) if guard is not None else False
+                cnt = 0 if g else max(0, ev(loop.iter.args[0], n_, w_))
+                want = max(0, n_ - w_ + 1)
+                if cnt != want:
+                    return ((n_, w_), cnt, want)
+        if sl is not None:
+            lo, up = sl.slice.lower, sl.slice.upper
+            i = loop.target.id if isinstance(loop.target, ast.Name) else None
+            if not (isinstance(lo, ast.Name) and lo.id == i and isinstance(up, ast.BinOp) and isinstance(up.op, ast.Add) and {ast.unparse(up.left), ast.unparse(up.right)} == {i, W}):
+                return (("slice", ast.unparse(sl.slice)), "?", f"{i}:{i}+{W}")
+    except (ValueError, KeyError, AttributeError):
+        return None
+    return True
